@@ -68,6 +68,21 @@ def via : St → Bool
   | .arraySep | .objectFieldStart | .objectFieldEnd | .objectValue | .objectValueAdd | .objectSep
   | .arrayAfterSep | .objectFieldStartAfterSep => false
 
+/-- the tables, one rewrite rule per (field, state): `simp [live_tab]` evaluates liveness of a concrete state
+and leaves `f sv` for a symbolic saved state alone -/
+theorem pbLive_tab : pbLive .eatws = false ∧ pbLive .start = false ∧ pbLive .finish = false ∧ pbLive .null = true ∧ pbLive .commentStart = false ∧ pbLive .comment = false ∧ pbLive .commentEol = false ∧ pbLive .commentEnd = false ∧ pbLive .string = true ∧ pbLive .stringEscape = true ∧ pbLive .escapeUnicode = true ∧ pbLive .needEscape = true ∧ pbLive .needU = true ∧ pbLive .boolean = true ∧ pbLive .number = true ∧ pbLive .array = false ∧ pbLive .arrayAdd = false ∧ pbLive .arraySep = false ∧ pbLive .objectFieldStart = false ∧ pbLive .objectField = true ∧ pbLive .objectFieldEnd = false ∧ pbLive .objectValue = false ∧ pbLive .objectValueAdd = false ∧ pbLive .objectSep = false ∧ pbLive .arrayAfterSep = false ∧ pbLive .objectFieldStartAfterSep = false ∧ pbLive .inf = true := by
+  decide
+theorem posLive_tab : posLive .eatws = false ∧ posLive .start = false ∧ posLive .finish = false ∧ posLive .null = true ∧ posLive .commentStart = false ∧ posLive .comment = false ∧ posLive .commentEol = false ∧ posLive .commentEnd = false ∧ posLive .string = false ∧ posLive .stringEscape = false ∧ posLive .escapeUnicode = true ∧ posLive .needEscape = true ∧ posLive .needU = true ∧ posLive .boolean = true ∧ posLive .number = false ∧ posLive .array = false ∧ posLive .arrayAdd = false ∧ posLive .arraySep = false ∧ posLive .objectFieldStart = false ∧ posLive .objectField = false ∧ posLive .objectFieldEnd = false ∧ posLive .objectValue = false ∧ posLive .objectValueAdd = false ∧ posLive .objectSep = false ∧ posLive .arrayAfterSep = false ∧ posLive .objectFieldStartAfterSep = false ∧ posLive .inf = true := by
+  decide
+theorem dblLive_tab : dblLive .eatws = false ∧ dblLive .start = false ∧ dblLive .finish = false ∧ dblLive .null = false ∧ dblLive .commentStart = false ∧ dblLive .comment = false ∧ dblLive .commentEol = false ∧ dblLive .commentEnd = false ∧ dblLive .string = false ∧ dblLive .stringEscape = false ∧ dblLive .escapeUnicode = false ∧ dblLive .needEscape = false ∧ dblLive .needU = false ∧ dblLive .boolean = false ∧ dblLive .number = true ∧ dblLive .array = false ∧ dblLive .arrayAdd = false ∧ dblLive .arraySep = false ∧ dblLive .objectFieldStart = false ∧ dblLive .objectField = false ∧ dblLive .objectFieldEnd = false ∧ dblLive .objectValue = false ∧ dblLive .objectValueAdd = false ∧ dblLive .objectSep = false ∧ dblLive .arrayAfterSep = false ∧ dblLive .objectFieldStartAfterSep = false ∧ dblLive .inf = false := by
+  decide
+theorem ucsLive_tab : ucsLive .eatws = false ∧ ucsLive .start = false ∧ ucsLive .finish = false ∧ ucsLive .null = false ∧ ucsLive .commentStart = false ∧ ucsLive .comment = false ∧ ucsLive .commentEol = false ∧ ucsLive .commentEnd = false ∧ ucsLive .string = false ∧ ucsLive .stringEscape = false ∧ ucsLive .escapeUnicode = true ∧ ucsLive .needEscape = true ∧ ucsLive .needU = true ∧ ucsLive .boolean = false ∧ ucsLive .number = false ∧ ucsLive .array = false ∧ ucsLive .arrayAdd = false ∧ ucsLive .arraySep = false ∧ ucsLive .objectFieldStart = false ∧ ucsLive .objectField = false ∧ ucsLive .objectFieldEnd = false ∧ ucsLive .objectValue = false ∧ ucsLive .objectValueAdd = false ∧ ucsLive .objectSep = false ∧ ucsLive .arrayAfterSep = false ∧ ucsLive .objectFieldStartAfterSep = false ∧ ucsLive .inf = false := by
+  decide
+theorem quoteLive_tab : quoteLive .eatws = false ∧ quoteLive .start = false ∧ quoteLive .finish = false ∧ quoteLive .null = false ∧ quoteLive .commentStart = false ∧ quoteLive .comment = false ∧ quoteLive .commentEol = false ∧ quoteLive .commentEnd = false ∧ quoteLive .string = true ∧ quoteLive .stringEscape = true ∧ quoteLive .escapeUnicode = true ∧ quoteLive .needEscape = true ∧ quoteLive .needU = true ∧ quoteLive .boolean = false ∧ quoteLive .number = false ∧ quoteLive .array = false ∧ quoteLive .arrayAdd = false ∧ quoteLive .arraySep = false ∧ quoteLive .objectFieldStart = false ∧ quoteLive .objectField = true ∧ quoteLive .objectFieldEnd = false ∧ quoteLive .objectValue = false ∧ quoteLive .objectValueAdd = false ∧ quoteLive .objectSep = false ∧ quoteLive .arrayAfterSep = false ∧ quoteLive .objectFieldStartAfterSep = false ∧ quoteLive .inf = false := by
+  decide
+theorem via_tab : via .eatws = true ∧ via .start = false ∧ via .finish = false ∧ via .null = false ∧ via .commentStart = true ∧ via .comment = true ∧ via .commentEol = true ∧ via .commentEnd = true ∧ via .string = false ∧ via .stringEscape = true ∧ via .escapeUnicode = true ∧ via .needEscape = true ∧ via .needU = true ∧ via .boolean = false ∧ via .number = false ∧ via .array = false ∧ via .arrayAdd = false ∧ via .arraySep = false ∧ via .objectFieldStart = false ∧ via .objectField = false ∧ via .objectFieldEnd = false ∧ via .objectValue = false ∧ via .objectValueAdd = false ∧ via .objectSep = false ∧ via .arrayAfterSep = false ∧ via .objectFieldStartAfterSep = false ∧ via .inf = false := by
+  decide
+
 /-- liveness of a field in a level (state, saved_state) -/
 def lv (f : St → Bool) (st sv : St) : Bool := f st || (via st && f sv)
 
@@ -147,6 +162,12 @@ def ActEqv : Act → Act → Prop
   | .fault w, .fault w' => w = w'
   | _, _ => False
 
+/-- both sides branch on the same condition (possibly only up to unfolding `Tok.strict` of two record
+literals with the same flags: `refine` unifies them) -/
+theorem ActEqv.ite {p : Prop} [Decidable p] {a a' b b' : Act} (h1 : ActEqv a a') (h2 : ActEqv b b') :
+    ActEqv (if p then a else b) (if p then a' else b') := by
+  split <;> assumption
+
 /-! ### one dispatch -/
 
 section states
@@ -161,13 +182,13 @@ local macro "eqv_open" h:ident hs:ident hst:ident : tactic => `(tactic|
    simp only at $hs:ident $hst:ident e1 e2 e3 e4
    subst $hst e1 e2 e3 e4
    subst $hs
-   simp [Tok.live, lv, pbLive, posLive, dblLive, ucsLive, quoteLive, via] at hpb hpos hdbl hucs hq
+   simp [Tok.live, lv, pbLive_tab, posLive_tab, dblLive_tab, ucsLive_tab, quoteLive_tab, via_tab] at hpb hpos hdbl hucs hq
    subst_vars))
 
 local macro "eqv_close" : tactic => `(tactic|
-  ((repeat' split) <;>
-   simp_all [ActEqv, eqv_iff, setTop, finishWith, Tok.live, lv, pbLive, posLive, dblLive, ucsLive, quoteLive, via,
-     Tok.strict, freshLevel]))
+  ((repeat' (refine ActEqv.ite ?_ ?_)) <;> (repeat' split) <;>
+   simp_all [ActEqv, eqv_iff, setTop, finishWith, Tok.live, lv, pbLive_tab, posLive_tab, dblLive_tab, ucsLive_tab,
+     quoteLive_tab, via_tab, Tok.strict, freshLevel]))
 
 theorem dEatws_eqv (h : Eqv t t') (hs : t.stack = top :: rest) (hst : top.state = .eatws) :
     ActEqv (dEatws t l top rest c) (dEatws t' l top rest c) := by
@@ -280,6 +301,106 @@ theorem dObjectSep_eqv (h : Eqv t t') (hs : t.stack = top :: rest) (hst : top.st
   eqv_open h hs hst
   unfold dObjectSep
   eqv_close
+
+set_option maxRecDepth 4000 in
+theorem emitUnit_eqv (u : Nat) (b : Bytes) (h : Eqv t t') (hs : t.stack = top :: rest)
+    (hst : top.state = .escapeUnicode) :
+    ActEqv (emitUnit t l top rest u b) (emitUnit t' l top rest u b) := by
+  eqv_open h hs hst
+  unfold emitUnit
+  simp only
+  eqv_close
+
+set_option maxRecDepth 4000 in
+theorem unicodeUnit_eqv (u : Nat) (h : Eqv t t') (hs : t.stack = top :: rest)
+    (hst : top.state = .escapeUnicode) :
+    ActEqv (unicodeUnit t l top rest u) (unicodeUnit t' l top rest u) := by
+  have hpb : t.pb = t'.pb := h.pb (by simp [Tok.live, hs, hst, lv, pbLive_tab])
+  unfold unicodeUnit
+  rw [← hpb, ← h.hs]
+  refine ActEqv.ite (ActEqv.ite ?_ ?_) ?_ <;> exact emitUnit_eqv l _ _ h hs hst
+
+theorem dEscapeUnicode_eqv (h : Eqv t t') (hs : t.stack = top :: rest) (hst : top.state = .escapeUnicode) :
+    ActEqv (dEscapeUnicode t l top rest c) (dEscapeUnicode t' l top rest c) := by
+  eqv_open h hs hst
+  unfold dEscapeUnicode
+  simp only
+  refine ActEqv.ite ?_ (ActEqv.ite ?_ (ActEqv.ite ?_ (unicodeUnit_eqv l _ ?_ rfl rfl)))
+  · eqv_close
+  · eqv_close
+  · eqv_close
+  · simp_all [eqv_iff, Tok.live, lv, pbLive_tab, posLive_tab, dblLive_tab, ucsLive_tab, quoteLive_tab, via_tab]
+
+theorem eqv_fresh_top {a b : Tok} {stk : List Level} (h1 : a.maxDepth = b.maxDepth) (h2 : a.flags = b.flags)
+    (h3 : a.hs = b.hs) (hs : a.stack = freshLevel :: stk) (hs' : b.stack = freshLevel :: stk) : Eqv a b := by
+  simp [eqv_iff, Tok.live, hs, hs', freshLevel, lv, pbLive_tab, posLive_tab, dblLive_tab, ucsLive_tab, quoteLive_tab,
+    via_tab, h1, h2, h3]
+
+/-- pushing a level: whatever the state of the current top -/
+theorem pushLevel_eqv (st' : St) (h : Eqv t t') :
+    ActEqv (pushLevel t l top rest st') (pushLevel t' l top rest st') := by
+  unfold pushLevel
+  rw [← h.maxDepth]
+  refine ActEqv.ite ?_ (ActEqv.ite ?_ ?_)
+  · exact ⟨rfl, h, rfl⟩
+  · exact rfl
+  · exact ⟨eqv_fresh_top rfl h.flags h.hs rfl rfl, rfl⟩
+
+theorem dArray_eqv (b : Bool) (h : Eqv t t') (hs : t.stack = top :: rest)
+    (hst : top.state = .array ∨ top.state = .arrayAfterSep) :
+    ActEqv (dArray t l top rest c b) (dArray t' l top rest c b) := by
+  rcases hst with hst | hst
+  · eqv_open h hs hst
+    unfold dArray
+    refine ActEqv.ite ?_ (pushLevel_eqv l _ ?_)
+    · eqv_close
+    · simp_all [eqv_iff, Tok.live, lv, pbLive_tab, posLive_tab, dblLive_tab, ucsLive_tab, quoteLive_tab, via_tab]
+  · eqv_open h hs hst
+    unfold dArray
+    refine ActEqv.ite ?_ (pushLevel_eqv l _ ?_)
+    · eqv_close
+    · simp_all [eqv_iff, Tok.live, lv, pbLive_tab, posLive_tab, dblLive_tab, ucsLive_tab, quoteLive_tab, via_tab]
+
+theorem dObjectFieldStart_eqv (b : Bool) (h : Eqv t t') (hs : t.stack = top :: rest)
+    (hst : top.state = .objectFieldStart ∨ top.state = .objectFieldStartAfterSep) :
+    ActEqv (dObjectFieldStart t l top rest c b) (dObjectFieldStart t' l top rest c b) := by
+  rcases hst with hst | hst
+  · eqv_open h hs hst
+    unfold dObjectFieldStart
+    eqv_close
+  · eqv_open h hs hst
+    unfold dObjectFieldStart
+    eqv_close
+
+/-- `classifyNum` reads only `flags` and `is_double` of the tokener -/
+def classifyNumN (lc : Libc) (fl : Nat) (dbl : Bool) (pb : Bytes) : Except PErr JVal :=
+  classifyNum lc ⟨[], 0, [], 0, dbl, 0, 0, 0, fl⟩ pb
+
+theorem classifyNum_norm (lc : Libc) (t : Tok) (pb : Bytes) :
+    classifyNum lc t pb = classifyNumN lc t.flags t.isDouble pb := by
+  unfold classifyNumN classifyNum Tok.strict
+  rfl
+
+theorem dNumber_eqv (lc : Libc) (h : Eqv t t') (hs : t.stack = top :: rest) (hst : top.state = .number) :
+    ActEqv (dNumber lc t l top rest c) (dNumber lc t' l top rest c) := by
+  eqv_open h hs hst
+  unfold dNumber dNumberCore
+  refine ActEqv.ite ?_ (ActEqv.ite ?_ (ActEqv.ite ?_ ?_))
+  · simp [ActEqv, eqv_iff, Tok.live, lv, pbLive_tab, posLive_tab, dblLive_tab, ucsLive_tab, quoteLive_tab, via_tab,
+      numDouble, numFlags]
+  · eqv_close
+  · eqv_close
+  · simp only
+    generalize hr : classifyNum lc _ _ = r
+    generalize hr' : classifyNum lc _ _ = r'
+    have e : r = r' := by
+      rw [← hr, ← hr']
+      simp only [classifyNum_norm]
+      rfl
+    subst e
+    cases r <;>
+      simp [ActEqv, eqv_iff, setTop, finishWith, Tok.live, lv, pbLive_tab, posLive_tab, dblLive_tab, ucsLive_tab,
+        quoteLive_tab, via_tab, Tok.strict]
 
 end states
 
